@@ -132,6 +132,8 @@ def s_equal(a, b):
         return False
     try:
         ra, rb = R(a), R(b)
+        if ra.d.t == rb.d.t:
+            return ra.n.t == rb.n.t          # one denominator: equal iff the numerators are the same polynomial
         _budget((ra.n, rb.d), (rb.n, ra.d))
         return ra.equals(rb)
     except TooLarge:
@@ -148,6 +150,78 @@ class Und:
 
     def __repr__(self):
         return f"Und({self.desc})"
+
+
+def fast_subs(r, mp):
+    """r with symbols replaced by zero or by monomials ({name: Rat with a one-term numerator and denominator}): term by term, without
+    building intermediate sums (e2_formula's general subs is quadratic in the number of terms)"""
+    r = R(r)
+    ids = {}
+    for name, v in mp.items():
+        v = R(v)
+        if not v.is_zero() and (len(v.n.t) != 1 or len(v.d.t) != 1):
+            return r.subs(mp)
+        ids[F._intern(("s", name))] = v
+
+    def sub_poly(p):
+        """-> (terms {signed monomial (tuple of (atom, exp), exps of either sign): coeff}) or None when an opaque atom is involved"""
+        out = {}
+        for m, c in p.t.items():
+            acc, coef, dead = {}, c, False
+            for a, e in m:
+                v = ids.get(a)
+                if v is None:
+                    if F.atom_desc(a)[0] != "s":
+                        return None
+                    acc[a] = acc.get(a, 0) + e
+                    continue
+                if v.is_zero():
+                    dead = True
+                    break
+                (mn, cn), = v.n.t.items()
+                (md, cd), = v.d.t.items()
+                coef = coef * (cn / cd) ** e
+                for a2, e2 in mn:
+                    if F.atom_desc(a2)[0] != "s":
+                        return None
+                    acc[a2] = acc.get(a2, 0) + e2 * e
+                for a2, e2 in md:
+                    if F.atom_desc(a2)[0] != "s":
+                        return None
+                    acc[a2] = acc.get(a2, 0) - e2 * e
+            if dead:
+                continue
+            key = tuple(sorted((a, e) for a, e in acc.items() if e))
+            v = out.get(key, 0) + coef
+            if v:
+                out[key] = v
+            else:
+                out.pop(key, None)
+        return out
+
+    def clear(terms):
+        """signed terms -> (Poly numerator, Poly one-term denominator)"""
+        low = {}
+        for m in terms:
+            for a, e in m:
+                if e < low.get(a, 0):
+                    low[a] = e
+        num = {}
+        for m, c in terms.items():
+            d = dict(m)
+            for a, e in low.items():
+                d[a] = d.get(a, 0) - e
+            num[tuple(sorted((a, e) for a, e in d.items() if e))] = c
+        den = tuple(sorted((a, -e) for a, e in low.items()))
+        return F.Poly(num), F.Poly({den: Fraction(1)})
+    tn, td = sub_poly(r.n), sub_poly(r.d)
+    if tn is None or td is None:
+        return r.subs(mp)
+    if not td:
+        raise Unsupported("substitution makes a denominator vanish")
+    nn, nd = clear(tn)
+    dn, dd = clear(td)
+    return Rat(nn * dd, nd * dn)
 
 
 def cond_val(guard, new, old):
@@ -779,6 +853,27 @@ COMPLEX = Builtin("complex", lambda it, a, k: (_ for _ in ()).throw(Unsupported(
 
 
 # --------------------------------------------------------------------------------------------------------------------- modules
+def _raw_tree(mod):
+    """the module as written.  The shared source model (e1_srcmodel) hands out a tree whose locals were renamed towards reference names and
+    whose temporaries / test polarities were canonicalised for the pattern rules; an interpreter needs none of that, and one of those
+    rewrites is not scope-aware (a nested function whose parameter shadows a renamed local of the enclosing function keeps its parameter name
+    while its body is renamed).  So the text is parsed again, untouched; functions get their qualified name for the coverage report."""
+    t = getattr(mod, "_c17_raw", None)
+    if t is None:
+        t = mod._c17_raw = ast.parse(mod.source, filename=mod.path)
+
+        def index(node, prefix):
+            for ch in ast.iter_child_nodes(node):
+                if isinstance(ch, (ast.FunctionDef, ast.AsyncFunctionDef, ast.ClassDef)):
+                    ch._vqual = prefix + ch.name
+                    index(ch, ch._vqual + ".")
+                elif not isinstance(ch, (ast.expr_context, ast.operator, ast.unaryop, ast.cmpop, ast.boolop)):
+                    index(ch, prefix)
+        index(t, "")
+        t._c17_source = mod.source
+    return t
+
+
 class ModuleEnv:
     def __init__(self, interp, rel):
         self.interp = interp
@@ -789,8 +884,9 @@ class ModuleEnv:
 
     def _load(self):
         if self.mod is None:
-            self.mod = self.interp.ctx.src.mod(self.rel)
-            self._scan(self.mod.tree.body)
+            self.mod = self.interp.ctx.src.mod(self.rel)          # registers the file (its digest goes into the evidence)
+            self.tree = _raw_tree(self.mod)
+            self._scan(self.tree.body)
 
     def _scan(self, body):
         """module-level bindings in source order; a name bound several times (`f = decorate(f)` after `def f`) keeps every definition: they
@@ -1082,7 +1178,7 @@ class Interp:
             self.ctx.src.funcs_consulted.add(f"{func.module.rel}:{q}")
         if selfobj is None and func.cls is not None and args:
             selfobj = args[0]
-        self.trace.append(func.name)
+        self.trace.append(f"{func.cls.name}.{func.name}" if func.cls is not None else func.name)
         is_gen = getattr(func.node, "_c17_gen", None)
         if is_gen is None:
             is_gen = func.node._c17_gen = any(isinstance(n, (ast.Yield, ast.YieldFrom)) for n in _walk_own(func.node))
@@ -1178,8 +1274,27 @@ class Interp:
                 return Builtin("tuple.index", lambda it, a, k, _v=v: [_hashable(x) for x in _v].index(_hashable(a[0])))
             raise Unsupported(f"tuple.{name}")
         if isinstance(v, str):
-            if name in ("format", "join", "strip", "lower", "upper"):
-                return Builtin("str." + name, lambda it, a, k: "<str>")
+            if name in ("format", "join", "strip", "lstrip", "rstrip", "lower", "upper", "replace", "startswith", "endswith", "split", "title"):
+                def smeth(it, a, k, _v=v, _n=name):
+                    """a string method: computed when the text and every argument are known strings / integers, else a placeholder"""
+                    plain = lambda x: (isinstance(x, str) and "<str>" not in x) or (isinstance(x, int) and not isinstance(x, bool))
+                    if _n == "join" and len(a) == 1:
+                        try:
+                            a = [it.iterate(a[0])]
+                        except Unsupported:
+                            return "<str>"
+                        if plain(_v) and all(isinstance(x, str) and "<str>" not in x for x in a[0]):
+                            return _v.join(a[0])
+                        return "<str>"
+                    if plain(_v) and all(plain(x) for x in a) and all(plain(x) for x in k.values()):
+                        try:
+                            return getattr(_v, _n)(*a, **k)
+                        except Exception:     # noqa: a malformed format string is the analysed program's business, not a verdict
+                            return "<str>"
+                    if _n in ("startswith", "endswith", "split"):
+                        raise Unsupported(f"str.{_n} of a computed string")
+                    return "<str>"
+                return Builtin("str." + name, smeth, lenient=True)
             raise Unsupported(f"str.{name}")
         if isinstance(v, Rat) or (isinstance(v, int) and not isinstance(v, bool)):
             if name == "real":
@@ -1218,7 +1333,7 @@ class Interp:
         """is `<x>.name` assigned anywhere in the modules of the class hierarchy (or a method / class attribute of it)?"""
         for c in cls.mro(self):
             c.module._load()
-            for n in ast.walk(c.module.mod.tree):
+            for n in ast.walk(c.module.tree):
                 if isinstance(n, ast.Attribute) and n.attr == name and isinstance(n.ctx, ast.Store):
                     return True
                 if isinstance(n, ast.Call) and isinstance(n.func, ast.Name) and n.func.id == "setattr":
@@ -1452,10 +1567,22 @@ class Interp:
             raise Unsupported("global / nonlocal")
         elif isinstance(st, ast.Delete):
             for t in st.targets:
-                if isinstance(t, ast.Name):
-                    frame.locals.pop(t.id, None)
-                else:
-                    raise Unsupported("del of a non-name")
+                for t1 in (t.elts if isinstance(t, (ast.Tuple, ast.List)) else [t]):
+                    if self.guards:
+                        raise Unsupported("del under an undecided test")
+                    if isinstance(t1, ast.Name):
+                        frame.locals.pop(t1.id, None)
+                    elif isinstance(t1, ast.Attribute):
+                        o = self.eval(t1.value, frame)
+                        if not isinstance(o, Obj):
+                            raise Unsupported("del of an attribute of a non-object")
+                        if t1.attr not in o.attrs:
+                            raise PyRaise("AttributeError", f"{o.label} has no attribute {t1.attr}")
+                        del o.attrs[t1.attr]
+                    elif isinstance(t1, ast.Subscript) and isinstance(self.eval(t1.value, frame), dict):
+                        self.eval(t1.value, frame).pop(_hashable(self.eval_index(t1.slice, frame)), None)
+                    else:
+                        raise Unsupported("del of a non-name")
         else:
             raise Unsupported(f"statement {type(st).__name__}")
 
@@ -1639,6 +1766,10 @@ class Interp:
         if isinstance(a, (tuple, list)) and isinstance(b, (tuple, list)) and op == "+":
             return a + b
         if isinstance(a, str) or isinstance(b, str):
+            if op == "+" and isinstance(a, str) and isinstance(b, str) and "<str>" not in a and "<str>" not in b:
+                return a + b                  # plain concatenation of known strings (attribute names built from parts)
+            if op == "*" and isinstance(a, str) and isinstance(b, int) and "<str>" not in a:
+                return a * b
             return "<str>"
         return ew_bin(op, a, b)
 
@@ -1651,7 +1782,11 @@ class Interp:
             if isinstance(v, bool) or v is None or isinstance(v, (str, int)) or v is Ellipsis:
                 return v
             if isinstance(v, float):
-                return F.const(const_from_node(node, self.ctx.src))
+                txt = ast.get_source_segment(frame.module.tree._c17_source, node) if getattr(frame.module, "tree", None) is not None else None
+                try:
+                    return F.const(Fraction(txt.replace("_", ""))) if txt else F.const(const_from_node(node, None))
+                except (ValueError, ZeroDivisionError):
+                    return F.const(const_from_node(node, None))
             raise Unsupported(f"constant {v!r}")
         if isinstance(node, ast.Name):
             return self.lookup(node.id, frame)
@@ -1734,7 +1869,22 @@ class Interp:
                     out[_hashable(self.eval(k, frame))] = self.eval(v, frame)
             return out
         if isinstance(node, ast.JoinedStr):
-            return "<str>"
+            parts = []
+            for v in node.values:
+                if isinstance(v, ast.Constant) and isinstance(v.value, str):
+                    parts.append(v.value)
+                elif isinstance(v, ast.FormattedValue) and v.format_spec is None and v.conversion == -1:
+                    try:
+                        x = self.eval(v.value, frame)
+                    except (Unsupported, PyRaise):
+                        return "<str>"
+                    if (isinstance(x, str) and "<str>" not in x) or (isinstance(x, int) and not isinstance(x, bool)):
+                        parts.append(str(x))
+                    else:
+                        return "<str>"
+                else:
+                    return "<str>"
+            return "".join(parts)
         if isinstance(node, ast.Slice):
             return self.eval_index(node, frame)
         if isinstance(node, ast.Lambda):
@@ -2453,7 +2603,7 @@ def _b_iter(it, a, k):
 
 
 def _b_getattr(it, a, k):
-    if not isinstance(a[1], str):
+    if not isinstance(a[1], str) or "<str>" in a[1]:
         raise Unsupported("getattr with a computed name")
     try:
         return it.getattr(a[0], a[1], None)
@@ -2464,7 +2614,7 @@ def _b_getattr(it, a, k):
 
 
 def _b_setattr(it, a, k):
-    if not isinstance(a[1], str):
+    if not isinstance(a[1], str) or "<str>" in a[1]:
         raise Unsupported("setattr with a computed name")
     it.setattr(a[0], a[1], a[2])
 
